@@ -16,7 +16,7 @@ EXPLANATION = ('BaseGHE.combine_sts_lts, BaseGHE.grab_g_function, GFunction.g_fu
                'with its radius-corrected value, the short-time points kept are exactly those below the first long-time point with their '
                'own values; interpolating at a stored height returns the stored curve and radius (1..5 stored heights, every kind branch); '
                'radius correction is the identity for equal radii and additive in ln(radius ratio).')
-OUTSIDE = ('the finite-line-source / UHTR 1e-4 anchor and the 20 % MIFT clause (pygfunction numerics); accuracy of scipy splines between '
+OUTSIDE = ('the finite-line-source / UHTR 1e-4 anchor and the 20 % MIFT clause as numbers (pygfunction numerics; only that the family is computed under the boundary condition, solver and segment options that were asked for is decided: long_time_family_* units); accuracy of scipy splines between '
            'nodes; a short-time point exactly equal to the first long-time point (measure-zero tie: duplicate abscissa / IndexError, stated '
            'as an assumption).')
 
@@ -272,6 +272,87 @@ def grab_fn(e):
     return conj(cs)
 
 
+# -- the stored long-time family is computed with the options that were asked for ---------------------------------------
+def family_setup():
+    import ghedesigner.gfunction as GFM
+    import pygfunction as gt
+    setup()
+
+    def borehole(H, D, r_b, x, y, tilt=0.0, orientation=0.0):      # pygfunction's Borehole is a plain record (it only coerces to float)
+        return NS(H=H, D=D, r_b=r_b, x=x, y=y, tilt=tilt, orientation=orientation)
+
+    def bhe_token(bhe_type, m_flow, fluid, bh, pipe, grout, soil):
+        return NS(kind=bhe_type, m_flow=m_flow, fluid=fluid, b=bh, pipe=pipe, grout=grout, soil=soil)
+
+    def network(bore_field, bhes, m_flow_network=None, cp_f=None):
+        return NS(is_network=True, field=bore_field, bhes=bhes, m_flow_network=m_flow_network, cp_f=cp_f)
+    shadow(GFM, 'GHEBorehole', borehole)
+    shadow(GFM, 'get_bhe_object', bhe_token)
+    shadow(GFM, 'gt', NS(networks=NS(Network=network), gfunction=NS(gFunction=None), utilities=gt.utilities))
+
+
+def family_fn(boundary, solver, segments, n_segments, own_ratios):
+    def fn(e):
+        """calc_g_func_for_multiple_lengths with pygfunction's gFunction as a recorder: every call must be handed what the caller
+        asked for (boundary condition, solver, segment options), the field at *this* height, depth and radius, the times of this
+        height's characteristic time; the stored family must hold exactly the values each call returned, under its height"""
+        import numpy
+
+        import ghedesigner.gfunction as GFM
+        from ghedesigner.enums import BHPipeType
+        from ghedesigner.media import Grout, Pipe, Soil
+        calls = []
+
+        class GFun:
+            def __init__(self, first, alpha, time=None, boundary_condition=None, options=None, method=None):
+                vals = [e.real('g_%d_%d' % (len(calls), j)) for j in range(len(list(time)))]
+                calls.append(NS(first=first, alpha=alpha, time=list(time), bc=boundary_condition, options=options, method=method, vals=vals))
+                self.gFunc = NS(tolist=lambda: list(vals))
+        GFM.gt.gfunction.gFunction = GFun
+        hs = [e.real('H%d' % i, 20.0, 400.0) for i in range(2)]
+        e.assume(hs[0] + 1.0 <= hs[1])
+        r_b, depth, m_flow, b = e.real('r_b', 0.03, 0.3), e.real('D', 0.5, 10.0), e.real('m_flow', 0.05, 2.0), e.real('B', 1.0, 30.0)
+        k_s, rhocp = e.real('k_s', 0.5, 5.0), e.real('rhocp_s', 1.0e6, 4.0e6)
+        fluid = NS(cp=e.real('cp_f', 3000.0, 4300.0), mu=1.0e-3, rho=998.0, k=0.6)
+        pipe = Pipe(Pipe.place_pipes(0.0323, 0.0133, 1), 0.0108, 0.0133, 0.0323, 1e-6, 0.4, 1542000.0)
+        grout, soil = Grout(1.0, 3901000.0), Soil(k_s, rhocp, 18.3)
+        coords = [(0.0, 0.0), (5.5, 0.0), (0.0, 7.25)]
+        log_time = [-8.5, -2.0, 3.003]
+        ratios = numpy.array([0.1, 0.2, 0.4, 0.2, 0.1]) if own_ratios else None
+        kw = dict(n_segments=n_segments, segments=segments, solver=solver, boundary=boundary)
+        if own_ratios:
+            kw['segment_ratios'] = ratios
+        fam = GFM.calc_g_func_for_multiple_lengths(b, list(hs), r_b, depth, m_flow, BHPipeType.SINGLEUTUBE, list(log_time), list(coords), fluid, pipe, grout, soil, **kw)
+        cs = [len(calls) == len(hs)]
+        if len(calls) != len(hs):
+            return False
+        alpha = k_s / rhocp
+        for h, c in zip(hs, calls):
+            field = c.first.field if getattr(c.first, 'is_network', False) else c.first
+            cs.append(c.bc == boundary)
+            cs.append(c.method == solver)
+            cs.append(c.options.get('nSegments') == n_segments)
+            cs.append(('segment_ratios' in c.options) == (segments.lower() == 'unequal'))
+            if own_ratios and segments.lower() == 'unequal':
+                cs.append(c.options['segment_ratios'] is ratios)
+            cs.append(getattr(c.first, 'is_network', False) == (boundary == 'MIFT'))
+            if boundary == 'MIFT':
+                cs += [c.first.m_flow_network == len(coords) * m_flow, c.first.cp_f == fluid.cp, len(c.first.bhes) == len(coords)]
+                cs += [conj([t.m_flow == m_flow, t.b is bh]) for t, bh in zip(c.first.bhes, field)]
+            cs.append(len(field) == len(coords))
+            cs += [conj([bh.H == h, bh.D == depth, bh.r_b == r_b, bh.x == x, bh.y == y]) for bh, (x, y) in zip(field, coords)]
+            cs.append(c.alpha == alpha)
+            ts = h * h / (9.0 * alpha)
+            cs += [t == float(numpy.exp(lt)) * ts for t, lt in zip(c.time, log_time)]
+            stored = fam.g_lts[h]
+            cs.append(len(stored) == len(c.vals))
+            cs += [a == v for a, v in zip(stored, c.vals)]
+            cs.append(fam.r_b_values[h] == r_b)
+        cs += [fam.B == b, fam.d == depth, list(fam.log_time) == list(log_time), [tuple(p) for p in fam.bore_locations] == coords, len(fam.g_lts) == len(hs)]
+        return conj(cs)
+    return fn
+
+
 def units(tier, seed):
     F = ['ground_heat_exchangers.py:BaseGHE.combine_sts_lts', 'ground_heat_exchangers.py:BaseGHE.grab_g_function',
          'gfunction.py:GFunction.g_function_interpolation', 'gfunction.py:GFunction.borehole_radius_correction']
@@ -291,5 +372,14 @@ def units(tier, seed):
     us.append(Unit('interp_cached_table', interp_cache_fn, None, setup, F[2:3], '3 stored heights; three successive queries on one object', AS, ST))
     us.append(Unit('radius_correction', radius_fn, radius_replay, setup, F[3:], 'three radii all reals in [0.02, 0.3]; 3 curve values', AS, ST))
     us.append(Unit('grab_g_function_glue', grab_fn, None, setup, F[1:2], 'one stored height; 3 long-time and 2 short-time points symbolic', AS, ST))
+    combos = [('UHTR', 'equivalent', 'unequal', 8, False), ('UBWT', 'similarities', 'equal', 12, False), ('MIFT', 'equivalent', 'unequal', 8, False),
+              ('MIFT', 'detailed', 'Unequal', 10, True)]
+    if tier == 'thorough':
+        combos = [(bc, so, sg, n, r) for bc in ('UHTR', 'UBWT', 'MIFT') for so in ('equivalent', 'similarities', 'detailed') for sg in ('equal', 'unequal') for (n, r) in ((8, False), (12, True))]
+    for bc, so, sg, n, r in combos:
+        us.append(Unit('long_time_family_%s_%s_%s_%d%s' % (bc, so, sg.lower(), n, '_ratios' if r else ''), family_fn(bc, so, sg, n, r), None, family_setup,
+                       ['gfunction.py:calc_g_func_for_multiple_lengths', 'gfunction.py:calculate_g_function', 'gfunction.py:GFunction.__init__'],
+                       'boundary %s, solver %s, %s segments (%d%s); two stored heights, radius, depth, flow, spacing, soil all symbolic reals; 3-borehole field' % (bc, so, sg, n, ', own ratios' if r else ''),
+                       ['floats as reals'], ['pygfunction gFunction -> recorder returning fresh symbolic values; Network / Borehole / pipe model -> records of their arguments']))
     us.append(Unit('twin_reachability', combine_fn(2, 'sym', twin=True), None, setup, F[:1], 'assert False must be violated', expect_cex=True))
     return us
